@@ -9,10 +9,11 @@
    - [tx_ordered] / [event_ordered]: a transaction spends outputs of transactions created before it
      (ids are assigned in creation order; E4 of DESIGN.md appendix A);
    - [node_knows n b]: the node can produce the previous transaction of every input of a block it
-     announces (E1);
-   - [guard s]: no two pending transactions spend the same outpoint, registrations name real inputs,
-     pending records are serialized transactions.  The first clause excludes exactly the shape of
-     finding flag-lost:shared-input-key (C09_shared_key_refuted shows what happens without it). *)
+     announces (E1).
+   The model is the code after the repairs 626fe73 (deleteUnminedInputs removes only the transaction's
+   own hash), 0bc4560 (a transaction already recorded as mined is not stored as pending) and cb8fee8
+   (Rollback stores the serialized transaction); the code as first found is kept in
+   del_inputs_of_found / receive_store_gen false / rollback with a3fix = false for the _refuted theorems. *)
 From Coq Require Import List ZArith NArith Bool.
 Import ListNotations.
 Open Scope Z_scope.
@@ -24,7 +25,8 @@ Require Import MW.Ledger.Model MW.Ledger.Spec MW.Ledger.Run MW.Ledger.Pending MW
    own is reported spent_by_unmined and is not eligible for automatic selection; the transaction can be
    read back from the pending set *)
 Theorem C09_flag :
-  forall p own n s t s', receive_store p own n s t = POk (Some s') -> pend s (t_id t) = None ->
+  forall p own n s t s', receive_store p own n s t = POk (Some s') ->
+    pend s (t_id t) = None -> tx_recorded s (t_id t) = false ->
     read_unmined s' (t_id t) = RdOk t /\
     forall ph pv pt o w, In (ph, pv) (t_ins t) ->
       lookup_pending n (ps_unmined s) ph = Some pt -> nth_error (t_outs pt) (N.to_nat pv) = Some o ->
@@ -34,12 +36,11 @@ Theorem C09_flag :
 Proof. exact receive_flags. Qed.
 Print Assumptions C09_flag.
 
-(* the flag stays while the transaction stays pending: a mined record removes a registration only
-   together with its transaction, or under an outpoint the mined transaction itself spends *)
+(* the flag stays while the transaction stays pending: a mined record removes no registration of a
+   transaction that is still pending afterwards *)
 Theorem C09_flag_kept :
-  forall p own h bid s r s', guard s -> p_apply_rec p own h bid s r = POk s' ->
-    forall o sp, In sp (ui_get (ps_uinputs s) o) -> pend s' sp <> None ->
-      ~ In o (t_ins (rr_tx r)) -> In sp (ui_get (ps_uinputs s') o).
+  forall p own h bid s r s', p_apply_rec p own h bid s r = POk s' ->
+    forall o sp, In sp (ui_get (ps_uinputs s) o) -> pend s' sp <> None -> In sp (ui_get (ps_uinputs s') o).
 Proof. exact flag_kept_by_mined_record. Qed.
 Print Assumptions C09_flag_kept.
 
@@ -91,12 +92,11 @@ Print Assumptions C09_settled_records.
 (* ---- a conflicting transaction confirms *)
 
 Theorem C09_conflict_purges_descendants :
-  forall own s r s', guard s -> remove_double_spends own s r = POk s' ->
+  forall own s r s', remove_double_spends own s r = POk s' ->
     (forall ri T, In ri (rr_ins r) -> In T (ui_get (ps_uinputs s) (ri_prev ri)) ->
         pend s' T = None /\ forall D, desc s T D -> pend s' D = None) /\
-    (forall X tX, pend s X = Some (USer tX) -> pend s' X = None ->
-        (forall o, ~ In X (ui_get (ps_uinputs s') o)) /\
-        (forall o, In o (t_ins tX) -> spent_by_unmined s' o = false)) /\
+    (forall X tX o, pend s X = Some (USer tX) -> pend s' X = None -> In o (t_ins tX) -> ~ In X (ui_get (ps_uinputs s') o)) /\
+    (forall o sp, In sp (ui_get (ps_uinputs s) o) -> pend s' sp <> None -> sp <> t_id (rr_tx r) -> In sp (ui_get (ps_uinputs s') o)) /\
     shrinks s s'.
 Proof. exact conflict_purges_descendants. Qed.
 Print Assumptions C09_conflict_purges_descendants.
@@ -105,7 +105,7 @@ Print Assumptions C09_conflict_purges_descendants.
 Theorem C09_conflict_removed :
   forall fuel own s h t s', remove_conflict fuel own s h t = POk s' ->
     um_get (ps_unmined s') h = None /\
-    (forall o, In o (t_ins t) -> ui_get (ps_uinputs s') o = []) /\
+    (forall o, In o (t_ins t) -> ~ In h (ui_get (ps_uinputs s') o)) /\
     (forall i, In i (out_indexes t) -> uc_get (ps_ucredits s') (h, i) = None).
 Proof. exact remove_conflict_removes. Qed.
 Print Assumptions C09_conflict_removed.
@@ -138,17 +138,41 @@ Theorem C09_rollback_readable_unfixed_refuted :
 Proof. exact rollback_readable_unfixed_refuted. Qed.
 Print Assumptions C09_rollback_readable_unfixed_refuted.
 
-(* finding flag-lost:shared-input-key: without the first clause of the guard the flag is lost.  Two pending
-   transactions share wallet coin (1,0); a transaction double-spending only the first one's other input
-   confirms; the second stays pending, yet the coin is neither flagged nor withheld from selection *)
-Theorem C09_shared_key_refuted :
+(* two pending transactions sharing a wallet coin, one of them conflicted through its other input: the
+   other one stays pending and the coin stays flagged and unselectable (the scenario of the repaired finding
+   flag-lost:shared-input-key) *)
+Theorem C09_shared_input_keeps_flag :
   let s := h_store (q_h (prun SharedKey.p true SharedKey.g SharedKey.evs)) in
-  Forall event_ordered SharedKey.evs /\
-  read_unmined s 11%N = RdOk SharedKey.t2 /\ In (1, 0)%N (t_ins SharedKey.t2) /\
-  spent_by_unmined s (1, 0)%N = false /\
-  exists c, In c (eligible_list s 1%N) /\ credit_op c = (1, 0)%N.
-Proof. exact flag_lost_shared_key_refuted. Qed.
-Print Assumptions C09_shared_key_refuted.
+  read_unmined s 10%N = RdNone /\ read_unmined s 11%N = RdOk SharedKey.t2 /\
+  spent_by_unmined s (1, 0)%N = true /\ spent_by_unmined s (3, 0)%N = true /\
+  map credit_op (eligible_list s 1%N) = [(4, 0)%N].
+Proof. exact shared_input_keeps_flag. Qed.
+Print Assumptions C09_shared_input_keeps_flag.
+
+(* the code as first found deleted the whole unmined-inputs entry of every input of a removed transaction *)
+Theorem C09_whole_key_unfixed_refuted :
+  exists ui t o sp, In sp (ui_get ui o) /\ sp <> t_id t /\ ~ In sp (ui_get (del_inputs_of_found ui t) o) /\
+                    In sp (ui_get (del_inputs_of ui t (t_id t)) o).
+Proof. exact flag_lost_whole_key_refuted. Qed.
+Print Assumptions C09_whole_key_unfixed_refuted.
+
+(* a transaction already recorded as mined that is delivered as unconfirmed is reported relevant and nothing
+   is stored; the code as first found stored it as pending again *)
+Theorem C09_already_mined_not_stored :
+  forall p own n s t s', receive_store p own n s t = POk (Some s') ->
+    pend s (t_id t) = None -> tx_recorded s (t_id t) = true -> s' = s.
+Proof. exact receive_already_mined. Qed.
+Print Assumptions C09_already_mined_not_stored.
+
+Theorem C09_pending_while_mined_unfixed_refuted :
+  let q := MinedThenDelivered.sim in
+  let s := h_store (q_h q) in
+  tx_recorded s 10%N = true /\
+  (exists s', receive_store_gen false MinedThenDelivered.p (own_of (q_own q)) (q_node q) s MinedThenDelivered.t = POk (Some s') /\
+              read_unmined s' 10%N = RdOk MinedThenDelivered.t) /\
+  receive_store MinedThenDelivered.p (own_of (q_own q)) (q_node q) s MinedThenDelivered.t = POk (Some s).
+Proof. exact pending_while_mined_refuted. Qed.
+Print Assumptions C09_pending_while_mined_unfixed_refuted.
 
 (* ---- the statements are not vacuous: a concrete history *)
 Module Ex.
@@ -172,19 +196,12 @@ End Ex.
 Example C09_example_pending :
   let s := Ex.st Ex.pre in
   read_unmined s 10%N = RdOk Ex.t10 /\ spent_by_unmined s (1, 0)%N = true /\
-  map credit_op (eligible_list s 1%N) = [(2, 0)%N] /\ guard s /\
+  map credit_op (eligible_list s 1%N) = [(2, 0)%N] /\
   map (fun r => (hr_tx r, hr_vout r, hr_amount r, hr_frozen r, hr_pending r)) (game_history (q_node (prun Ex.p true Ex.g Ex.pre)) s 1%N false false)
     = [(10%N, 0%N, 3, 2, true)] /\
   gross_balance (ps_w s) 1%N = 10.
 Proof.
-  cbv zeta. split; [vm_compute; reflexivity|]. split; [vm_compute; reflexivity|]. split; [vm_compute; reflexivity|].
-  split; [|split; vm_compute; reflexivity].
-  apply (guard_one _ 10%N Ex.t10); [vm_compute; reflexivity|].
-  intros o sp Hin.
-  assert (E : ps_uinputs (Ex.st Ex.pre) = [((1, 0)%N, [10%N])]) by (vm_compute; reflexivity).
-  rewrite E in Hin. unfold ui_get in Hin. cbn [find fst snd] in Hin.
-  destruct (op_eqb (1, 0)%N o) eqn:Eo; [|destruct Hin].
-  apply op_eqb_eq in Eo. subst o. destruct Hin as [<-|[]]. split; [reflexivity|left; reflexivity].
+  vm_compute. repeat split; reflexivity.
 Qed.
 
 (* mined: an ordinary ledger entry, no longer pending, the deposit row is a mined one *)
